@@ -77,6 +77,7 @@ def gen_plan(rng, index, tier):
         if mixed:
             plan["sizes"] = sizes
             plan["batch"] = rng.choice([2, 3, 4])
+            plan["same_filename"] = rng.random() < 0.3  # both videos embedded in one package file
         if blob:
             plan["frame_kind"] = "blob"
             plan["dtype"] = "float32"
